@@ -174,11 +174,11 @@ def run (ctx : Algo.Ctx) (op : String) (args impl : List String) : Outcome :=
         match impl with
         | [mc, tc, ix, so] =>
           if so != (if sort == "1" then "1" else "0") then specFail "[C08] the sort flag reported differs from the toggles applied"
-          else if tc != toString ls.length then specFail s!"[C08] at quiescence {tc} items are loaded, the input has {ls.length}"
+          else if tc != toString ls.length then specFail s!"[C08,C06] at quiescence {tc} items are loaded, the input (without its header lines) has {ls.length}"
           else if mc != toString idx.length ∨ mc != toString (parseNatList ix).length then
             specFail s!"[C08,C05] at quiescence the match count ({mc}) is not that of a fresh filter ({idx.length}) / of the list shown"
           else if (parseNatList ix).mergeSort (· ≤ ·) != idx.mergeSort (· ≤ ·) then
-            specFail "[C08,C05] at quiescence the match list holds other lines than a fresh filter of the current query (same lines, query and options)"
+            specFail "[C08,C05,C06] at quiescence the match list holds other lines than a fresh filter of the current query (same lines, query and options)"
           else specFail "[C08] at quiescence the match list is ordered differently from a fresh filter of the current query"
         | _ => specFail "[C08] unparsable state",
       tags := ["conv", "nt"] ++ (if ex.isEmpty then [] else ["exclude"]) ++ (if nth != "-" then ["nth"] else []) ++
